@@ -258,8 +258,15 @@ def probe_c04(case, cfg):
             L.append('    emit("gave", j!({"group": %s, "field": %s, "kind": "%s", "res_id": '
                      '%s.verif_id()}));' % (g, rs_str(info["name"]), info["kind"], var))
             if info["kind"] == "buffer":
-                fields.append("%s: wgpu::BufferBinding { buffer: &%s, offset: 0, size: None }" % (
-                    info["name"], var))
+                # a distinct (offset, size) per field: the whole BufferBinding must arrive
+                k = (int(g) * 7 + int(b) % 97) % 13
+                off = 256 * (k + 1)
+                size = "None" if k % 3 == 0 else "std::num::NonZeroU64::new(%d)" % (64 * (k + 1))
+                L.append('    emit("gave.range", j!({"group": %s, "field": %s, "offset": %d, '
+                         '"size": %s}));' % (g, rs_str(info["name"]), off,
+                                             "null" if k % 3 == 0 else str(64 * (k + 1))))
+                fields.append("%s: wgpu::BufferBinding { buffer: &%s, offset: %d, size: %s }" % (
+                    info["name"], var, off, size))
             else:
                 fields.append("%s: &%s" % (info["name"], var))
         L.append('    emit("from_bindings.begin", j!({"group": %s}));' % g)
